@@ -101,6 +101,7 @@ fn main() {
             "C12" => vharness::checks::c12::run(tier),
             "C13" => vharness::checks::c13::run(tier),
             "C14" => vharness::checks::c14::run(tier),
+            "C15" => vharness::checks::c15::run(tier),
             other => {
                 eprintln!("unknown check {other}");
                 2
